@@ -570,7 +570,7 @@ def nav_cases():
         yield (NESTED, p, "name", False, "a")
         yield (NESTED, p, "name", False, "a,b")
         for kw in ("has_child", "max", "min", "unique", "distinct"):
-            for raw in ("", "b", "c", "&k", "&v", "&zz", "a,b", "'b'", "'b", "\\,", ",", "g"):
+            for raw in ("", "b", "c", "&k", "&v", "&zz", "a,b", "'b'", "'b", "\\,", ",", "g", "\\'", "b\\\""):
                 for inv in (False, True):
                     yield (NESTED, p, kw, inv, raw)
 
